@@ -15,8 +15,9 @@ import Proofs.C19Reasm
       contiguous delivered before the first skip, everything queued behind a hole flushed) and
       `sg_prefix_property` derives the property for fq's report from it; `sg_needs_flush_assumption` shows the
       flush hypothesis cannot be dropped.  The correspondence run checks the hypothesis on recorded call traces.
-    * three defects found by the correspondence run are pinned by evaluation (`seq_wrap_witness`,
-      `fsm_reorder_witness`; `defrag_length_regression` for the one that has been fixed in /repo).
+    * five defects found by the correspondence run are pinned by evaluation (`seq_wrap_witness` for the one that
+      remains, in gopacket; `defrag_length_regression`, `fsm_reorder_regression`, `pcapng_shb_section_regression`,
+      `pcapng_section_length_regression` for the four that have been fixed in /repo).
 -/
 namespace Props.C19
 open FqModel.Reasm Proofs.C19
@@ -286,23 +287,24 @@ theorem sections_independent (a b : List (List (SGCall α))) :
     runSections (a ++ b) = runSections a ++ runSections b := by
   simp [runSections]
 
-/-- how fq forms sections (as the code is): with a given section_length the file's sections, each with its own
-    interface table; with section_length −1 one section for the whole file whose interface table is the
-    concatenation of all interface descriptions read so far -/
+/-- how fq forms sections (pcapng.go after 501642c1): the file's sections, each with its own interface table -/
 theorem fq_sectioning (secs : List (List Nat)) (links : List (List String)) (s j : Nat) :
-    fqSectioning true secs = secs ∧ fqSectioning false secs = [secs.flatten] ∧
-    fqInterfaceLink true links s j = (links.getD s [])[j]? ∧
-    fqInterfaceLink false links s j = ((links.take (s + 1)).flatten)[j]? := by
-  simp [fqSectioning, fqInterfaceLink]
+    fqSectioning secs = secs ∧ fqInterfaceLink links s j = (links.getD s [])[j]? := ⟨rfl, rfl⟩
 
-/-- with identical interface lists in every section (what a capturing tool that restarts a section writes) the
-    merged table gives every packet its own section's link type -/
-theorem fq_interface_link_same (ls : List String) (n s j : Nat) (hs : s < n) (hj : j < ls.length) :
-    fqInterfaceLink false (List.replicate n ls) s j = ls[j]? := by
-  simp only [fqInterfaceLink, Bool.false_eq_true, ↓reduceIte]
-  have : List.take (s + 1) (List.replicate n ls) = ls :: List.replicate s ls := by
-    rw [List.take_replicate, Nat.min_eq_left (by omega), List.replicate_succ]
-  rw [this, List.flatten_cons, List.getElem?_append_left hj]
+/-- the block loop of `decodeSection` with the length counted AFTER the section header block reads exactly the
+    blocks of a section whose section_length is the sum of its (non-empty) blocks — whatever their sizes -/
+theorem section_length_exact (bs : List Nat) (hpos : ∀ b ∈ bs, 0 < b) :
+    ∀ pos, blocksConsumed pos (pos + bs.sum) bs = bs.length := by
+  induction bs with
+  | nil => intro pos; rfl
+  | cons b bs ih =>
+    intro pos
+    have hb := hpos b (List.mem_cons_self ..)
+    simp only [blocksConsumed, List.sum_cons, List.length_cons]
+    have hlt : pos < pos + (b + bs.sum) := by omega
+    simp only [hlt, if_true]
+    have := ih (fun x hx => hpos x (List.mem_cons_of_mem _ hx)) (pos + b)
+    rw [show pos + (b + bs.sum) = pos + b + bs.sum by omega, this]
 
 /-! ### order of `tcp_connections` and `ipv4_reassembled` -/
 
@@ -375,13 +377,15 @@ theorem link_table_ok :
       | none => false) = true ∧
     linkToDecodeFn 276 ≠ linkToDecodeFn 113 ∧ linkToDecodeFn 2 = none := by decide
 
-/-! ### the three defects the correspondence run found, pinned by evaluation -/
+/-! ### the defects the correspondence run found, pinned by evaluation (one known, four fixed) -/
 
 /-- known finding `seq-wrap`: gopacket's `Sequence.Difference` is off by one across 2^32, so of an 8 byte
     segment [2^32-2, 6) retransmitted when the stream already stands at 6 only 7 bytes are recognised as
     old: the last byte is appended again.  Away from the wrap all 8 are dropped. -/
 theorem seq_wrap_witness :
-    seqDifference 0xFFFFFFFE 6 = 7 ∧ overlapDropped 6 0xFFFFFFFE 8 = 7 ∧ overlapDropped 5008 5000 8 = 8 := by
+    seqDifference 0xFFFFFFFE 6 = 7 ∧ overlapDropped 6 0xFFFFFFFE 8 = 7 ∧ overlapDropped 5008 5000 8 = 8 ∧
+    -- second shape: a segment one byte ahead across the wrap is taken for contiguous (distance 1 computed as 0)
+    seqDifference 0xFFFFFFFF 0 = 0 ∧ seqDifference 77 78 = 1 := by
   decide
 
 /-- fixed finding `defrag-length` (regression): the 28 byte payload cut into [0,8) and [8,28), arriving in
@@ -396,25 +400,38 @@ theorem defrag_length_regression :
     acceptReassembled true true = true ∧ acceptReassembled true false = false ∧
     (∀ c, acceptReassembled false c = false) := by decide
 
-/-- known finding `fsm-reorder`: capture without handshake; FIN+ACK first, then the data segment of the same
-    sender: `Accept` lets the FIN through and rejects the data.  In order both pass. -/
-theorem fsm_reorder_witness :
+/-- fixed finding `fsm-reorder` (regression): capture without handshake; FIN+ACK first, then the data segment of
+    the same sender.  OLD `Accept` (the answer of TCPSimpleFSM.CheckState alone) let the FIN through and rejected
+    the data; `Accept` as fixed in 1ef5f83b never rejects a segment with payload, and still rejects what the
+    state machine rejects when it carries none.  In order both rules pass both packets. -/
+theorem fsm_reorder_regression :
     fsmRun {} [(false, true, true, false, false), (false, true, false, false, false)] = [true, false] ∧
-    fsmRun {} [(false, true, false, false, false), (false, true, true, false, false)] = [true, true] := by decide
+    acceptRun {} [(false, true, true, false, false, false), (false, true, false, false, false, true)] = [true, true] ∧
+    acceptRun {} [(false, true, true, false, false, false), (false, true, false, false, false, false)] = [true, false] ∧
+    fsmRun {} [(false, true, false, false, false), (false, true, true, false, false)] = [true, true] ∧
+    (∀ t syn ack fin rst dir, (acceptSegment t syn ack fin rst dir true).2 = true) := by
+  refine ⟨by decide, by decide, by decide, by decide, ?_⟩
+  intro t syn ack fin rst dir
+  simp [acceptSegment]
 
-/-- known finding `pcapng-shb-section`: section_length −1, second section with an SLL2 interface after a first
-    section with an ethernet interface: fq keeps ONE section and looks interface id 0 of the second section up
-    in the accumulated table — ethernet. -/
-theorem pcapng_shb_section_witness :
-    fqSectioning false [[1, 2], [3]] = [[1, 2, 3]] ∧
-    fqInterfaceLink false [["eth"], ["sll2"]] 1 0 = some "eth" ∧
-    fqInterfaceLink true [["eth"], ["sll2"]] 1 0 = some "sll2" := by decide
+/-- fixed finding `pcapng-shb-section` (regression): section_length −1, second section with an SLL2 interface after
+    a first section with an ethernet interface.  OLD: ONE section for the file, interface id 0 of the second
+    section looked up in the accumulated table — ethernet.  Fixed in 501642c1: two sections, own tables. -/
+theorem pcapng_shb_section_regression :
+    fqSectioningOld false [[1, 2], [3]] = [[1, 2, 3]] ∧
+    fqInterfaceLinkOld false [["eth"], ["sll2"]] 1 0 = some "eth" ∧
+    fqSectioning [[1, 2], [3]] = [[1, 2], [3]] ∧
+    fqInterfaceLink [["eth"], ["sll2"]] 1 0 = some "sll2" := by decide
 
-/-- known finding `pcapng-section-length`: fq measures the section length from the start of the section header
-    block; a section whose last block (100 bytes) is not longer than its 460 byte header block is left one
-    block early, with the 48 byte header the harness normally writes it is not -/
-theorem pcapng_section_length_witness :
-    sectionEndsEarly 460 100 = true ∧ sectionEndsEarly 48 100 = false ∧ sectionEndsEarly 48 32 = true := by decide
+/-- fixed finding `pcapng-section-length` (regression): blocks of 32, 92 and 100 bytes after a 460 byte section
+    header block, section_length 224.  OLD (length counted from the start of the header block: the loop starts
+    at position 460 ≥ 224) read none of them; with the 48 byte header the harness normally writes it lost a
+    trailing 32 byte block; counted after the header block (501642c1) all blocks are read — `section_length_exact`
+    for every section. -/
+theorem pcapng_section_length_regression :
+    blocksConsumed 460 224 [32, 92, 100] = 0 ∧ sectionEndsEarlyOld 460 100 = true ∧
+    blocksConsumed 48 80 [48, 32] = 1 ∧ sectionEndsEarlyOld 48 32 = true ∧ sectionEndsEarlyOld 48 100 = false ∧
+    blocksConsumed 0 224 [32, 92, 100] = 3 ∧ blocksConsumed 0 80 [48, 32] = 2 := by decide
 
 /-! ### non-vacuity -/
 
